@@ -16,6 +16,7 @@ package c18
 import (
 	"context"
 	"encoding/json"
+	"errors"
 	"fmt"
 	"maps"
 	"sort"
@@ -90,6 +91,9 @@ type Script struct {
 	TTLMs  int           `json:"ttl_ms"` // set on every list/read result by a server receiving middleware
 	Sess   []Sess        `json:"sess"`
 	Events []Event       `json:"events"`
+	// RejectSub: the server's SubscribeHandler refuses resource index RejectSub-1 (0: none, so that older scripts keep their meaning). A refused
+	// subscription is no subscription: resource-updated must not reach that session.
+	RejectSub int `json:"reject_sub"`
 }
 
 var dts = []int64{0, 0, 0, 1, int64(debounce) - 1, int64(debounce), int64(debounce), int64(debounce) + 1,
@@ -110,6 +114,7 @@ var uriBias = []int{0, 0, 0, 0, 1, 2} // most subscribe / update / read traffic 
 func gen(rt *rapid.T) Script {
 	var s Script
 	s.TTLMs = rapid.SampledFrom([]int{0, 60000, 60000}).Draw(rt, "ttl")
+	s.RejectSub = rapid.SampledFrom([]int{0, 0, 0, 1, 2}).Draw(rt, "reject_sub")
 	for i := range s.Caps {
 		s.Caps[i] = rapid.SampledFrom([]string{"default", "default", "default", "on", "on", "off"}).Draw(rt, "cap")
 	}
@@ -327,7 +332,12 @@ func runInBubble(s Script) (res vt.Result) {
 
 	// ---- server ----
 	var sopts mcp.ServerOptions
-	sopts.SubscribeHandler = func(context.Context, *mcp.SubscribeRequest) error { return nil }
+	sopts.SubscribeHandler = func(_ context.Context, r *mcp.SubscribeRequest) error {
+		if s.RejectSub > 0 && r.Params.URI == uriOf(s.RejectSub-1) {
+			return errors.New("subscription refused")
+		}
+		return nil
+	}
 	sopts.UnsubscribeHandler = func(context.Context, *mcp.UnsubscribeRequest) error { return nil }
 	if capOf(0) != "default" || capOf(1) != "default" || capOf(2) != "default" {
 		c := &mcp.ServerCapabilities{}
@@ -731,6 +741,14 @@ func runInBubble(s Script) (res vt.Result) {
 			if !ok {
 				res.Failf("harness: Subscribe(%s) on session %d did not return", uri, si)
 				break
+			}
+			refused := s.RejectSub > 0 && uri == uriOf(s.RejectSub-1)
+			if refused {
+				res.Class("subscribe_refused_by_handler")
+				if sl.spec.Legacy && err == nil {
+					res.Failf("Subscribe(%s) on legacy session %d succeeded although the server's SubscribeHandler refused it", uri, si)
+				}
+				break // not subscribed, whatever the protocol version
 			}
 			if err != nil {
 				res.Class("subscribe_error")
